@@ -347,6 +347,38 @@ func (g *Gen) twins(c *Case) (string, string) {
 		} else {
 			narrow = core + "{" + extra + "}"
 		}
+		if g.chance(0.12) {
+			// a merged selector as the direct argument of a function
+			fn := g.pick("abs", "ceil", "floor", "sqrt", "exp")
+			if g.chance(0.5) {
+				return "sum(" + fn + "(" + narrow + a + "))", "sum(" + core + b + ")"
+			}
+			return fn + "(" + narrow + a + ")", core + b
+		}
+		if g.chance(0.15) {
+			// timestamp() over a merged selector has its own operator
+			if g.chance(0.5) {
+				if g.chance(0.3) {
+					return "timestamp(" + narrow + a + ")", "timestamp(" + core + b + ")"
+				}
+				return "timestamp(" + narrow + a + ")", core + b
+			}
+			return "timestamp(" + narrow + ")", core
+		}
+		if g.chance(0.5) {
+			// the select merger only looks below a step-invariant wrapper when it wraps a bare
+			// selector: pin one twin, leave the other moving with the steps
+			pin := g.pick(" @ start()", " @ end()", fmt.Sprintf(" @ %d.000", c.Start/1000), fmt.Sprintf(" @ %d.000", (c.Start+c.End)/2000))
+			free := g.pick("", "", " offset "+durStr(g.pickI(5000, 60000, g.step)))
+			if g.chance(0.3) {
+				pin += " offset " + durStr(g.pickI(5000, 30000))
+				pin = strings.Replace(pin, " offset", " offset", 1)
+			}
+			if g.chance(0.5) {
+				return narrow + pin, core + free
+			}
+			return narrow + free, core + pin
+		}
 		if g.chance(0.5) {
 			return "sum(" + narrow + a + ")", "sum(" + core + b + ")"
 		}
@@ -586,6 +618,7 @@ func (g *Gen) dataset(c *Case, ranges []int64, withHist bool) {
 		groups := 1 + g.r.Intn(2)
 		twoHist := g.chance(0.3)
 		sameA := g.chance(0.5)
+		lateLabel := g.chance(0.5)
 		if strings.Contains(c.Query, "._bucket") {
 			// a selector over both bucket metrics: make them collide after the name is dropped
 			twoHist = g.chance(0.85)
@@ -617,6 +650,10 @@ func (g *Gen) dataset(c *Case, ranges []int64, withHist bool) {
 					av = labelValues[0]
 				}
 				ls := [][2]string{{"__name__", hname}, {"a", av}, {"le", b}}
+				if lateLabel {
+					// a label that sorts after "le": dropping "le" in place would shift it
+					ls = append(ls, [2]string{"p", labelValues[gi%len(labelValues)]})
+				}
 				s := SeriesJ{Labels: ls}
 				for k, t := range ts {
 					cum[k] += float64(g.r.Intn(5)) * float64(k+1)
@@ -785,7 +822,26 @@ func (g *Gen) Case(i int) *Case {
 			c.Query = sel + " * pi() + time()"
 		}
 	case "func":
-		if g.chance(0.3) {
+		if g.chance(0.08) {
+			// an @-pinned vector under a function whose scalar argument moves with the steps
+			sel := g.selectorCore(g.metric()) + g.pick(" @ start()", " @ end()", fmt.Sprintf(" @ %d.000", c.Start/1000))
+			tm := g.pick("time()", "time() / 2", "time() - 1000", "scalar(n)")
+			switch g.r.Intn(4) {
+			case 0:
+				c.Query = "clamp_max(" + sel + ", " + tm + ")"
+			case 1:
+				c.Query = "clamp_min(" + sel + ", " + tm + ")"
+			case 2:
+				c.Query = "clamp(" + sel + ", 0, " + tm + ")"
+			default:
+				c.Query = sel + " " + g.pick("+", "-", "*", "> bool", "<") + " " + tm
+			}
+			if c.Instant() {
+				c.Step = g.pickI(15000, 30000, 60000)
+				c.End = c.Start + c.Step*int64(2+g.r.Intn(25))
+				g.step = c.Step
+			}
+		} else if g.chance(0.3) {
 			c.Query = g.scalarExpr(c, 1+g.r.Intn(2))
 		} else {
 			c.Query = g.funcExpr(c, 1+g.r.Intn(2))
